@@ -515,6 +515,10 @@ tracked!(Tr16, 16, 16, 4);
 tracked!(Tr24, 24, 8, 4);
 tracked!(Tr64, 64, 64, 4);
 tracked!(Tr160, 160, 32, 4);
+// power-of-two sizes larger than their alignment
+tracked!(Tr4a1, 4, 1, 4);
+tracked!(Tr16a4, 16, 4, 4);
+tracked!(Tr32a8, 32, 8, 4);
 // a second tracked type with the layout of Tr8 (C04: same layout, different type)
 tracked!(TrB8, 8, 8, 4);
 
@@ -528,6 +532,9 @@ plain!(Pl16, 16, 16);
 plain!(Pl24, 24, 8);
 plain!(Pl64, 64, 64);
 plain!(Pl160, 160, 32);
+plain!(Pl2a1, 2, 1);
+plain!(Pl8a2, 8, 2);
+plain!(Pl64a8, 64, 8);
 
 /// Sticky registry flags as a violation description, if any is set.
 pub fn registry_flags() -> Option<String> {
